@@ -17,6 +17,8 @@ import traceback
 VERIF_DIR = os.path.dirname(os.path.dirname(os.path.abspath(__file__)))
 REPO_DIR = os.environ.get('DTVERIF_REPO', '/repo')
 KNOWN_FILE = os.path.join(VERIF_DIR, 'known_findings.json')
+# development only: redirect evidence / reports of scratch runs
+OUT_DIR = os.environ.get('DTVERIF_OUT', VERIF_DIR)
 
 
 class AnalysisError(Exception):
@@ -143,7 +145,7 @@ def run_check(pid, rules, tier, model_factory, level='other',
     evidence.  Returns the process exit code."""
     t0 = time.time()
     seed = int(os.environ.get('VERIF_SEED', '0') or 0)
-    evidence_path = os.path.join(VERIF_DIR, 'evidence', f'{pid}.json')
+    evidence_path = os.path.join(OUT_DIR, 'evidence', f'{pid}.json')
     try:
         model = model_factory()
         results = []
@@ -209,7 +211,7 @@ def run_check(pid, rules, tier, model_factory, level='other',
 
     replay = None
     if viol:
-        rep_dir = os.path.join(VERIF_DIR, 'reports', pid)
+        rep_dir = os.path.join(OUT_DIR, 'reports', pid)
         os.makedirs(rep_dir, exist_ok=True)
         replay = os.path.join(rep_dir, 'report.json')
         with open(replay, 'w') as fh:
